@@ -13,6 +13,7 @@ from harness import deps_common as dc
 from harness import env, synth, tlc
 
 _MODELS = {}
+DENSE_SHAPES = ("opa", "opb", "opc", "opd", "opl", "oph", "opk")
 _SCRATCH = []   # synthetic model directories, removed after the verdicts (replay files embed the models)
 
 
@@ -194,12 +195,18 @@ def random_synthetic(run, pid, checks, seed, n_kernels, maxlen, tag="r3", nmodel
                 # few registers -> many dependencies and kills
                 pool = rnd.sample(dc.GPR_POOL[isa], rnd.choice([2, 3, 4]))
                 vpool = rnd.sample(dc.VEC_POOL[isa], 2)
+                use = shapes
+                if rnd.random() < 0.4:
+                    # dense: register arithmetic over two or three registers -> many overlapping chains and cycles
+                    use = [s for s in shapes if s["name"] in DENSE_SHAPES]
+                    pool = rnd.sample(dc.GPR_POOL[isa], rnd.choice([2, 3]))
+                    ln = rnd.randint(min(4, maxlen), min(9, maxlen))
                 instrs = []
                 for q in range(ln):
-                    if rnd.random() < 0.08:
+                    if rnd.random() < 0.08 and use is shapes:
                         instrs.append(dc.noise_instr(isa, rnd, q))
                     else:
-                        instrs.append(dc.gen_instr(isa, rnd.choice(shapes), rnd, pool=pool, vpool=vpool))
+                        instrs.append(dc.gen_instr(isa, rnd.choice(use), rnd, pool=pool, vpool=vpool))
                 fd = rnd.random() < 0.5
                 k = dc.abstract_kernel(instrs, pidx, 0.0, fd)
                 # kernels deep inside a long file: line numbers around and beyond 1000
@@ -501,7 +508,11 @@ def rotation_cases(run, pid, seed, n_kernels, maxlen, all_offsets, archs_x86, ar
         for q in range(n_kernels // 2):
             ln = rnd.randint(2, maxlen)
             pool = rnd.sample(dc.GPR_POOL[isa], rnd.choice([2, 3]))
-            instrs = [dc.gen_instr(isa, rnd.choice(shapes), rnd, pool=pool, vpool=rnd.sample(dc.VEC_POOL[isa], 2)) for _ in range(ln)]
+            use = shapes
+            if rnd.random() < 0.5:
+                use = [s for s in shapes if s["name"] in DENSE_SHAPES]
+                ln = rnd.randint(min(4, maxlen), maxlen)
+            instrs = [dc.gen_instr(isa, rnd.choice(use), rnd, pool=pool, vpool=rnd.sample(dc.VEC_POOL[isa], 2)) for _ in range(ln)]
             lines = ["\t" + i["text"] for i in instrs]
             offs = list(range(1, ln)) if all_offsets else sorted(rnd.sample(range(1, ln), min(ln - 1, 3)))
             add("syn", isa, d, "%s:rot:syn:%s:%d" % (pid, isa, q), lines,
